@@ -44,6 +44,11 @@ def spec_pool():
     sp.append(spec('{\n  "a": [1, 2],\n  "k": [\n    ' + bad + '\n  ]\n}'))
     sp.append(spec('[\n  {\n    "k": ' + bad + '\n  }\n]'))
     sp.append(spec('{\n  "a": @t\n}', {'@t': '[\n  ' + bad + '\n]'}))
+    # string formats as alternatives (the conversions rename some of them)
+    for fmt, ex in [('datetime', '"2021-01-02T07:23:12+03:00"'), ('date', '"2021-01-02"'), ('email', '"x@y.org"'), ('uri', '"http://a.b/c"'),
+                    ('uuid', '"550e8400-e29b-41d4-a716-446655440000"')]:
+        sp.append(spec('%s // {or: [{type: "%s"}, {type: "integer", min: 0}]}' % (ex, fmt)))
+        sp.append(spec('{\n  "k": %s // {or: ["%s", "integer"]}\n}' % (ex, fmt)))
     # victims: nested results where two levels hold buffers at the same time
     sp.append(spec('{"a": {"b": 1}, "c": [1, 2]}'))
     sp.append(spec('[[1, [2, {"x": [3]}]], {"y": {"z": []}}]'))
@@ -78,6 +83,9 @@ class Prop:
         a, b = spec('{"a":1}'), spec('[1,2]')
         for ops in ['e0 e1', 'e0 e0', 'o0 o1 e0', 'e0 a0 e1 o1 c0', 'a0 a1 e0']:
             cs.append(Case('hist %s ; %s ;; %s' % (a, b, ops), 'history-minimal', meta=([a, b], ops.split())))
+        # every object of the pool: each answer asked for twice with the other operations in between
+        for sp1 in pool:
+            cs.append(Case('hist %s ;; a0 o0 e0 a0 o0 e0 u0 c0 a0' % sp1, 'history-repeat', meta=([sp1], 'a0 o0 e0 a0 o0 e0 u0 c0 a0'.split())))
         return cs
 
     def run_impl(self, lines):
